@@ -42,6 +42,7 @@ func checkC17(c *Ctx) {
 		c17Register(c, p, m)
 		c17Variadic(c, p, m)
 		c17Tags(c, p, m)
+		tagStoresFromRegistration(c, p)
 		// "is gated as the level it is treated as and is routed to the error device if so requested":
 		// the readers of the registry must consult it for EVERY level value (shared obligations)
 		c01Decision(c, p, m)
